@@ -145,14 +145,59 @@ def analyse(fn, spec, modifies_cursor=None, entry_bound=0):
             return 0
         return b
 
-    def refine(b, cond, pol):
+    def moves_cursor(e):
+        n = C.elem_node(fn, e)
+        if n is None:
+            return False
+        k = n.get("k")
+        if k == "un" and n.get("op") in ("++", "--") and spec.is_cursor(n.child("e")):
+            return True
+        if k == "bin" and n.get("op") in ("=", "+=", "-=") and spec.is_cursor(n.child("l")):
+            return True
+        return k in ("call", "construct") and mod(n)
+
+    def named_condition(c, at_pos):
+        """`const bool missingColon = cur == end || *cur != ':'; ... if (missingColon)`: the initialiser, provided the name is never
+        written and the cursor cannot move between the declaration and the branch."""
+        if c.get("k") != "ref" or c.get("did") is None or at_pos is None:
+            return None
+        inits, dpos = [], None
+        for d in fn.nodes:
+            if d.get("k") == "decl":
+                for v in d.get("vars", []):
+                    if v.get("did") == c["did"] and "init" in v and fn.db_types[v["t"]].replace("const ", "").strip() == "bool":
+                        inits.append(fn.nodes[v["init"]])
+                        dpos = C.pos_of(fn, d)
+            if d.get("k") == "bin" and d.get("op", "").endswith("=") and d["op"] not in ("==", "!=", "<=", ">=") and \
+                    _strip(d.child("l")) is not None and _strip(d.child("l")).get("did") == c["did"]:
+                return None
+        if len(inits) != 1 or dpos is None:
+            return None
+        if C.path_exists(fn, dpos, lambda p, e: e not in ("TERM", "EXIT") and moves_cursor(e), avoid=lambda p, e: p == at_pos) is not None:
+            return None
+        return inits[0]
+
+    def refine(b, cond, pol, at_pos=None):
         """bound after `cond` evaluated to pol."""
         c = _strip(cond)
         if c is None:
             return b
         k = c.get("k")
+        if k == "ref":
+            ini = named_condition(c, at_pos)
+            if ini is not None:
+                return refine(b, ini, pol, None)
+            return b
+        if k == "bin" and c.get("op") in ("&&", "||"):
+            l_, r_ = c.child("l"), c.child("r")
+            conj_ = (c["op"] == "&&")
+            if conj_ == pol:
+                # both operands have the polarity: a && b true, a || b false
+                return refine(refine(b, l_, pol, at_pos), r_, pol, at_pos)
+            # a && b false / a || b true: either the left decided, or the left had the other value and the right decided
+            return min(refine(b, l_, pol, at_pos), refine(refine(b, l_, not pol, at_pos), r_, pol, at_pos))
         if k == "un" and c["op"] == "!":
-            return refine(b, c.child("e"), not pol)
+            return refine(b, c.child("e"), not pol, at_pos)
         if k == "cast" and c.get("ck") in ("IntegralToBoolean", "PointerToBoolean"):
             inner = c.child("e")
             si = _strip(inner)
@@ -160,7 +205,7 @@ def analyse(fn, spec, modifies_cursor=None, entry_bound=0):
             if spec.sentinel and si is not None and si.get("k") == "un" and si["op"] == "*" and spec.cursor_plus(si.child("e")) == 0:
                 if pol and b >= 1:
                     return max(b, 2)
-            return refine(b, inner, pol)
+            return refine(b, inner, pol, at_pos)
         if k == "bin" and c["op"] in ("==", "!=", "<", ">", "<=", ">="):
             l, r, op = c.child("l"), c.child("r"), c["op"]
             # normalise so that the cursor side is on the left
@@ -216,7 +261,7 @@ def analyse(fn, spec, modifies_cursor=None, entry_bound=0):
         cls = t["cls"]
         if cls in ("IfStmt", "WhileStmt", "ForStmt", "DoStmt", "ConditionalOperator") or \
                 (cls == "BinaryOperator" and t.get("op") in ("&&", "||")):
-            nb = refine(st, c, si == 0)
+            nb = refine(st, c, si == 0, C.term_pos(fn, blk.id))
             if nb != st:
                 stats["refinements"] += 1
             return nb
